@@ -231,7 +231,7 @@ MANIFEST = {
     "text": "PROVED (Props/C02.lean): limit_pushdown_preserves — for a row pipeline described by the code's guard fields, guard = true implies that cutting the source to k rows before the tail "
             "equals cutting the tail's output (any deterministic scan order), and limit_pushdown_needs_guard gives a counterexample for every dropped conjunct that matters (DISTINCT, ORDER BY, "
             "aggregation, SKIP, filter); limit_guard_tie / plan_guard_tie : the guard's conjuncts are exactly the early-return conditions of limitPushdownTailSource / "
-            "queryPartAllowsLimitPushdown in the current sources (decide over the extracted table). agg_final_projection_tie / agg_source_match_tie: the planner's recognisers of the aggregate-traversal-count shape (aggregateTraversalFinalProjection: exactly one sort key, DESCENDING, the count alias, LIMIT literal, no SKIP / DISTINCT, one or two plain items; aggregateTraversalSourceMatch: one named node without an inline property map, WHERE over the source only) are, condition by condition, the analysed ones — the translator side hard-codes `order by count desc limit n` and never reads a source property map, so each conjunct is needed; the focused family agg-traversal has one query per NEGATED conjunct. transparent_where_tie: the helper behind the guard's last conjunct (which tail WHERE a LIMIT may be moved below) is, statement by statement, the analysed one — transparent only if the WHERE is absent or consists of the endpoint inequality over a transparent shortest-path harness frame (limit_below_filter_loses_rows: cutting before a filter is not cutting after it). prune_preserves — dropping columns the tail does not read does not change its output. "
+            "queryPartAllowsLimitPushdown in the current sources (decide over the extracted table). agg_final_projection_tie / agg_source_match_tie: the planner's recognisers of the aggregate-traversal-count shape (aggregateTraversalFinalProjection: exactly one sort key, DESCENDING, the count alias, LIMIT literal, no SKIP / DISTINCT, one or two plain items; aggregateTraversalSourceMatch: one named node without an inline property map, WHERE over the source only) are, condition by condition, the analysed ones — the translator side hard-codes `order by count desc limit n` and never reads a source property map, so each conjunct is needed; the focused family agg-traversal has one query per NEGATED conjunct, and the fixed graphs include RANKED SOURCES (NodeKind1 sources with 1, 3, 0 and a tie pair of 2 reachable NodeKind2 targets: unique minimum and maximum), so that the sort direction decides which sources are returned. Under ORDER BY + LIMIT two different bags are accepted as a tie only when the reference semantics itself refuses the cut as falling inside a block of equal keys; when the reference determines the rows, different bags are a difference. transparent_where_tie: the helper behind the guard's last conjunct (which tail WHERE a LIMIT may be moved below) is, statement by statement, the analysed one — transparent only if the WHERE is absent or consists of the endpoint inequality over a transparent shortest-path harness frame (limit_below_filter_loses_rows: cutting before a filter is not cutting after it). prune_preserves — dropping columns the tail does not read does not change its output. "
             "aggregate_helper_tie / depth_guard_tie / alias_declaration_tie: selectContainsAggregate (visitor over every node, never consumes), "
             "aggregateTraversalDepthBounds (lower bound >= 1) and isProjectionAliasDeclaration (node identity) are the analysed functions (decide over their extracted statements), with "
             "agg_count_depth_preserves (+ needs_guard witness for lower bound 0) and collect_id_lowering_blocked_by_reprojection (+ by-symbol counterexample) as the lemmas whose hypotheses "
